@@ -253,6 +253,31 @@ theorem valKey_sound (ik : Bool) (k k' : CVal) (h : valKey ik k = .ok (some k'))
     · rename_i hk; simp at h; subst h; exact hk
     · simp at h
 
+/-- the after-validator keeps a value inside its schema type: it only turns a `datetime` without
+    time zone into a `datetime` with one -/
+theorem conforms_after (env : Env) (f : Field) (n : Nat) (ty : STy) (y : CVal)
+    (h : Conforms env n ty y) : Conforms env n ty (applyNaiveIsUtc f y) := by
+  unfold applyNaiveIsUtc
+  split
+  · split
+    · rename_i us
+      cases n with
+      | zero => simp [Conforms] at h
+      | succ n =>
+        unfold Conforms at h ⊢
+        cases ty with
+        | scalar alts =>
+          obtain ⟨a, ha, hok⟩ := h
+          cases a <;> simp [ScalarOk] at hok
+          exact ⟨.datetime, ha, us, some 0, rfl⟩
+        | anyMap => trivial
+        | list item => obtain ⟨xs, hx, _⟩ := h; cases hx
+        | set item => exact h
+        | mapOf ik val => obtain ⟨out, hx, _⟩ := h; cases hx
+        | model name => obtain ⟨s, out, _, hx, _⟩ := h; cases hx
+    · exact h
+  · exact h
+
 /-- **Soundness of the validator**: what it returns is an instance of the schema type. -/
 theorem validate_sound (env : Env) :
     ∀ fuel strict ty v r, validate env fuel strict ty v = .ok (some r) → Conforms env fuel ty r := by
@@ -345,7 +370,7 @@ theorem validate_sound (env : Env) :
                 exact ⟨rfl, Or.inl hd⟩
               | some x0 =>
                 obtain ⟨y, hy, rfl⟩ := valField_present _ s kvs f x0 a hl hxe
-                exact ⟨rfl, Or.inr (ih s.strict f.ty _ y hy)⟩
+                exact ⟨rfl, Or.inr (conforms_after env f n f.ty y (ih s.strict f.ty _ y hy))⟩
 
 /-! ### reading a conforming value -/
 
@@ -488,5 +513,121 @@ theorem matchClassPlus_true (cls : Char → Bool) (uo : Bool) (s : List Char)
           | true => rfl
           | false => exact absurd (List.any_eq_true.mpr ⟨c, hc, by simp [h1, hcl]⟩) hcls
         exact ⟨h1, h2⟩
+
+/-! ### from a loaded value back to the value that was validated (used for the after-validator) -/
+
+/-- reading one option of a loaded object back to the object that was validated: the option was absent
+    and took its default, or it was present and its loaded value is the validated value after the
+    after-validator -/
+theorem validate_model_get (env : Env) (hnd : ∀ s ∈ env.tbl, s.fieldNames.Nodup) (n : Nat) (strict : Bool)
+    (name fname : String) (v0 loaded v : CVal)
+    (h : validate env (n + 1) strict (.model name) v0 = .ok (some loaded))
+    (hg : loaded.get? fname = some v) :
+    ∃ s f kvs, findSchema env.tbl name = some s ∧ s.field? fname = some f ∧ v0 = .map kvs ∧
+      ((CVal.lookupStr kvs fname = none ∧ f.default = some v) ∨
+       (∃ x y, CVal.lookupStr kvs fname = some x ∧
+          validate env n s.strict f.ty (applyStrToList f x) = .ok (some y) ∧ v = applyNaiveIsUtc f y)) := by
+  unfold validate at h
+  simp only at h
+  split at h
+  · simp [unsupported] at h
+  · rename_i s hs
+    cases v0 <;> simp only [pure, Except.pure] at h
+    all_goals (try (simp at h; done))
+    rename_i kvs
+    revert h
+    generalize hq : sequenceV _ = q
+    cases q with
+    | error e => simp [bind, Except.bind]
+    | ok o =>
+      cases o with
+      | none => simp [bind, Except.bind]
+      | some l =>
+        simp only [bind, Except.bind]
+        intro h
+        split at h
+        · simp at h
+        · simp only [Option.map_some, Except.ok.injEq, Option.some.injEq] at h
+          subst h
+          simp only [CVal.get?] at hg
+          obtain ⟨x, hx, hxe⟩ := sequenceV_mem _ l hq _ (lookupStr_mem _ _ _ hg)
+          obtain ⟨f, hf, rfl⟩ := List.mem_map.mp hx
+          cases hl : CVal.lookupStr kvs f.name with
+          | none =>
+            obtain ⟨d, hd, he⟩ := valField_absent _ s kvs f _ hl hxe
+            injection he with h1 h2
+            injection h1 with h1
+            subst h1 h2
+            exact ⟨s, f, kvs, hs, field_unique s.fields (hnd s (findSchema_mem hs)) f hf, rfl, Or.inl ⟨hl, hd⟩⟩
+          | some x0 =>
+            obtain ⟨y, hy, he⟩ := valField_present _ s kvs f x0 _ hl hxe
+            injection he with h1 h2
+            injection h1 with h1
+            subst h1
+            exact ⟨s, f, kvs, hs, field_unique s.fields (hnd s (findSchema_mem hs)) f hf, rfl,
+              Or.inr ⟨x0, y, hl, hy, h2⟩⟩
+
+/-- every entry of a loaded mapping is the validated form of an entry of the mapping given -/
+theorem validate_mapOf_mem (env : Env) (n : Nat) (strict ik : Bool) (val : STy) (v0 : CVal)
+    (out : List (CVal × CVal)) (kv' : CVal × CVal)
+    (h : validate env (n + 1) strict (.mapOf ik val) v0 = .ok (some (.map out))) (hm : kv' ∈ out) :
+    ∃ kvs kv, v0 = .map kvs ∧ kv ∈ kvs ∧ valKey ik kv.1 = .ok (some kv'.1) ∧
+      validate env n strict val kv.2 = .ok (some kv'.2) := by
+  unfold validate at h
+  cases v0 <;> simp only [pure, Except.pure] at h
+  all_goals (try (simp at h; done))
+  rename_i kvs
+  revert h
+  generalize hq : sequenceV _ = q
+  cases q with
+  | error e => simp [bind, Except.bind]
+  | ok o =>
+    cases o with
+    | none => simp [bind, Except.bind]
+    | some l =>
+      simp only [bind, Except.bind]
+      intro h
+      split at h
+      · simp [unsupported] at h
+      · simp only [Except.ok.injEq, Option.some.injEq, CVal.map.injEq] at h
+        subst h
+        obtain ⟨x, hx, hxe⟩ := sequenceV_mem _ l hq kv' hm
+        obtain ⟨kv, hkv, rfl⟩ := List.mem_map.mp hx
+        obtain ⟨hk, hv⟩ := valEntry_ok _ _ _ _ hxe
+        exact ⟨kvs, kv, rfl, hkv, hk, hv⟩
+
+theorem valKey_str (k k' : CVal) (h : valKey false k = .ok (some k')) : k' = k := by
+  unfold valKey at h
+  simp only [Bool.false_eq_true, if_false, pure, Except.pure, Except.ok.injEq] at h
+  split at h
+  · simp at h; exact h.symm
+  · simp at h
+
+/-- a `datetime` field given a `datetime`: accepted as it is, in either mode, whatever other
+    alternatives the field has -/
+theorem validate_datetime_ts (env : Env) (n : Nat) (strict : Bool) (alts : List Scalar) (us : Int) (off : Option Int) :
+    validate env (n + 1) strict (.scalar (.datetime :: alts)) (.ts us off) = .ok (some (.ts us off)) := by
+  simp [validate, valUnion, firstSome, valScalar, pure, Except.pure, bind, Except.bind]
+
+/-- … given a bare date (lax mode): midnight of that day, without time zone -/
+theorem validate_datetime_date (env : Env) (n : Nat) (d : Int) :
+    validate env (n + 1) false (.scalar [.datetime]) (.date d) = .ok (some (.ts (d * usPerDay) none)) ∧
+    validate env (n + 1) false (.scalar [.datetime, .null]) (.date d) = .ok (some (.ts (d * usPerDay) none)) := by
+  constructor <;> simp [validate, valUnion, firstSome, valScalar, pure, Except.pure, bind, Except.bind]
+
+theorem validate_datetime_null (env : Env) (n : Nat) (strict : Bool) :
+    validate env (n + 1) strict (.scalar [.datetime, .null]) .null = .ok (some .null) := by
+  cases strict <;> simp [validate, valUnion, firstSome, valScalar, pure, Except.pure, bind, Except.bind]
+
+/-- only an options object validates as a model -/
+theorem validate_model_input (env : Env) (n : Nat) (strict : Bool) (name : String) (v0 loaded : CVal)
+    (h : validate env (n + 1) strict (.model name) v0 = .ok (some loaded)) : ∃ kvs, v0 = .map kvs := by
+  unfold validate at h
+  simp only at h
+  split at h
+  · simp [unsupported] at h
+  · cases v0 <;> simp only [pure, Except.pure] at h
+    all_goals (try (simp at h; done))
+    exact ⟨_, rfl⟩
 
 end Kskm.C16
